@@ -160,8 +160,9 @@ def variant(rng, A, kind):
 def generate(rng, tier, shard, nshards):
     n = 14 if tier == "quick" else 140
     for i in range(n):
-        A = aops.rand_wfsa(rng, "Rat", nS=rng.choice([1, 2, 3]), narcs=rng.choice([2, 4, 5]), labels=("a", "b"),
-                           eps_acyclic=True, acyclic=(i % 3 == 0))
+        A = aops.rand_wfsa(rng, "Rat", nS=rng.choice([1, 2, 3]), narcs=rng.choice([2, 4, 5]),
+                           labels=("a", "b", "") if i % 5 == 2 else ("a", "b"),
+                           eps_acyclic=True, acyclic=(i % 3 == 0), eps_loop=0.5 if i % 5 == 2 else 0.0)
         # keep the machine well conditioned and convergent: every weight <= 1 on cyclic machines
         if i % 3 != 0:
             for r in A["arcs"]:
